@@ -23,6 +23,8 @@ pub struct Params {
     pub disc: String,
     pub mode: String,
     pub log_io: bool,
+    /// extended authentication: CONNECT with an Authentication Method, an AUTH challenge, authorize(), and only then the CONNACK
+    pub auth: bool,
 }
 
 impl Default for Params {
@@ -37,6 +39,7 @@ impl Default for Params {
             disc: "wake".into(),
             mode: if cfg!(debug_assertions) { "dev".into() } else { "release".into() },
             log_io: false,
+            auth: false,
         }
     }
 }
@@ -44,7 +47,7 @@ impl Default for Params {
 impl Params {
     pub fn to_json(&self) -> Value {
         json!({"a": "reset", "run": self.run, "fam": self.fam, "R": self.r, "M": self.m,
-               "sei_connect": self.sei_connect, "sei_connack": self.sei_connack, "disc": self.disc, "log_io": self.log_io})
+               "sei_connect": self.sei_connect, "sei_connack": self.sei_connack, "disc": self.disc, "log_io": self.log_io, "auth": self.auth})
     }
     pub fn from_json(v: &Value) -> Params {
         Params {
@@ -56,6 +59,7 @@ impl Params {
             sei_connack: v["sei_connack"].as_u64().map(|x| x as u32),
             disc: v["disc"].as_str().unwrap_or("wake").to_string(),
             log_io: v["log_io"].as_bool().unwrap_or(false),
+            auth: v["auth"].as_bool().unwrap_or(false),
             ..Default::default()
         }
     }
@@ -97,11 +101,34 @@ fn handshake(s: &mut Sim, p: &Params) -> bool {
     if let Some(x) = p.sei_connect {
         spec["sei"] = json!(x);
     }
+    if p.auth {
+        spec["auth_method"] = json!("m");
+        spec["auth_data"] = json!("d");
+    }
     s.command(Cmd::Connect(spec));
     s.poll_ctx();
-    s.inject_packet(&connack(p), 9);
+    let mut auth_ok = true;
+    if p.auth {
+        // the server answers CONNECT with an AUTH challenge; the CONNACK (with the connection's limits) answers authorize()
+        let mut ch = Pk::new(mqtt::AUTH);
+        ch.rc = Some(0x18);
+        ch.props.push(Prop { id: 0x15, v: PV::Str(b"m".to_vec()) });
+        ch.props.push(Prop { id: 0x16, v: PV::Bin(b"c".to_vec()) });
+        s.inject_packet(&ch, 9);
+        let r = s.poll_ctx();
+        auth_ok = r.iter().any(|v| v["kind"] == "AuthRsp");
+        s.ctx_results.clear();
+        s.ctx_returned = false;
+        s.command(Cmd::Authorize(json!({"reason": 0x18, "method": "m", "data": "resp"})));
+        s.poll_ctx();
+    }
+    let mut ca = connack(p);
+    if p.auth {
+        ca.props.push(Prop { id: 0x15, v: PV::Str(b"m".to_vec()) });
+    }
+    s.inject_packet(&ca, 9);
     let r = s.poll_ctx();
-    let ok = r.iter().any(|v| v["kind"] == "ConnectRsp");
+    let ok = auth_ok && r.iter().any(|v| v["kind"] == "ConnectRsp");
     s.wire.packets.clear();
     s.wire.raw.clear();
     s.ctx_results.clear();
@@ -549,6 +576,7 @@ struct Broker {
     pings: usize,
     q2_open: Vec<(u16, Value)>, // inbound QoS 2 publishes not yet released: (id, packet json)
     next_in: usize,
+    last_q1: Option<Value>, // the last inbound QoS 1 publish (a broker may send it again with DUP set: delivered again)
 }
 
 fn choose<'a, T>(rng: &mut StdRng, v: &'a [T]) -> &'a T {
@@ -586,7 +614,7 @@ pub fn walk(p: &Params, cfg: &WalkCfg, seed: u64) -> (Vec<Value>, Vec<String>) {
     let mut script = vec![p.to_json()];
     let mut s = start(p);
     s.sched_seed = seed;
-    let mut b = Broker { seen: 0, pending: vec![], pings: 0, q2_open: vec![], next_in: 0 };
+    let mut b = Broker { seen: 0, pending: vec![], pings: 0, q2_open: vec![], next_in: 0, last_q1: None };
     let mut next_op = 1usize;
     let sweep_every = p.disc == "sweep";
     let chunk_pct = cfg.chunk_pct;
@@ -804,6 +832,12 @@ pub fn walk(p: &Params, cfg: &WalkCfg, seed: u64) -> (Vec<Value>, Vec<String>) {
                     let i = rng.gen_range(0..b.q2_open.len());
                     let (id, _) = b.q2_open.remove(i);
                     do_step(&mut s, &mut rng, &mut script, json!({"a": "pkt", "pk": {"t": "PUBREL", "id": id, "rc": 0}}));
+                } else if b.last_q1.is_some() && r >= 92 {
+                    // QoS 1 re-delivery: same identifier and content with DUP set, directly after the first copy or later;
+                    // at-least-once: it is a PUBLISH like any other (acknowledged, yielded)
+                    let mut pkj = b.last_q1.clone().unwrap();
+                    pkj["dup"] = json!(1);
+                    do_step(&mut s, &mut rng, &mut script, json!({"a": "pkt", "pk": pkj}));
                 } else {
                     let qos = rng.gen_range(0..3);
                     let subs: Vec<usize> = s.wire.op_sid.keys().cloned().collect();
@@ -838,6 +872,9 @@ pub fn walk(p: &Params, cfg: &WalkCfg, seed: u64) -> (Vec<Value>, Vec<String>) {
                         "sids": sids, "props": props});
                     if qos == 2 {
                         b.q2_open.push((id, pkj.clone()));
+                    }
+                    if qos == 1 {
+                        b.last_q1 = Some(pkj.clone());
                     }
                     do_step(&mut s, &mut rng, &mut script, json!({"a": "pkt", "pk": pkj}));
                 }
